@@ -2,7 +2,7 @@ from dataclasses import dataclass
 
 from mypy.nodes import CallExpr, Expression, MemberExpr, OpExpr
 
-from refurb.checks.common import get_mypy_type, is_same_type, stringify
+from refurb.checks.common import get_mypy_type, is_same_type, stringify, stringify_operand
 from refurb.error import Error
 
 
@@ -46,7 +46,7 @@ def check_expr(expr: Expression, errors: list[Error]) -> None:
             callee=MemberExpr(expr=lhs, name="copy"),
             args=[],
         ) if is_same_type(get_mypy_type(lhs), dict, set, "os._Environ"):
-            msg = f"Replace `{stringify(lhs)}.copy()` with `{stringify(lhs)}`"
+            msg = f"Replace `{stringify_operand(lhs, '.')}.copy()` with `{stringify(lhs)}`"
 
             errors.append(ErrorInfo.from_node(expr, msg))
 
